@@ -22,13 +22,20 @@ def ser(d):
 
 def reference(text, L, G):
     """the property's reference: the same text as the body of a function whose parameters are the supplied names"""
-    args = [k for k in L if k.isidentifier()]
+    import keyword
+    first = text.splitlines()[0] if text else ""
+    declared = [n.strip() for n in first[len("global "):].split(",")] if first.startswith("global ") else []
+    # supplied names the program declares global, or that cannot be parameter names, are no locals of the function: they come back unchanged
+    args = [k for k in L if k.isidentifier() and not keyword.iskeyword(k) and k != "__debug__" and k not in declared]
     src = "def __ref__(%s):\n%s\n    return locals()" % (", ".join(args), "\n".join("    " + l for l in text.splitlines()) or "    pass")
     ns = {}
     G2 = dict(G)
     exec(src, G2, ns)
     try:
         res = ns["__ref__"](**{k: L[k] for k in args})
+        for k in L:
+            if k not in args:
+                res.setdefault(k, L[k])
         return {"result": ser(res), "G": ser(G2)}
     except Exception as e:
         return {"exc": type(e).__name__, "G": ser(G2)}
